@@ -157,7 +157,7 @@ static void all_paths(std::string const &in, bool heavy)
 		unsigned char *e2 = cppcms::b64url::decode(dst.p, dst.p + es, back.p);
 		if (e2 != back.p + ds || std::string((char *)back.p, ds) != in) O().viol("b64:decode-ptr", rp, rp);
 	}
-	{ std::string o = "S"; bool ok = cppcms::b64url::decode(want, o); if (!ok || (in.empty() ? (o != "S" && !o.empty()) : o != in)) O().viol("b64:decode-string", rp, rp); }
+	{ std::string o = "S"; bool ok = cppcms::b64url::decode(want, o); if (!ok || o != in) O().viol("b64:decode-string", "decode(encode(x)) into a string that already held something: got " + std::to_string(o.size()) + " bytes for " + std::to_string(in.size()), rp); }
 	{ std::ostringstream ss; cppcms::b64url::encode((unsigned char const *)b, (unsigned char const *)e, ss); if (ss.str() != want) O().viol("b64:encode-ostream", rp, rp); }
 	{ std::ostringstream ss; ss << "[" << cppcms::filters::base64_urlencode(in) << "]"; if (ss.str() != "[" + want + "]") O().viol("b64:encode-filter", rp, rp); }
 	{ piecewise pw = { &in, (unsigned)fnv(in) + 13 }; std::ostringstream ss; ss << "[" << cppcms::filters::base64_urlencode(pw) << "]"; if (ss.str() != "[" + want + "]") O().viol("b64:encode-filter-on-streamed-object", rp, rp); }
